@@ -830,6 +830,23 @@ func (env *SpecEnv) call(x ECall) SpecVal {
 		}
 		heap, ms := g.so.mapHeapFor(mt)
 		return SpecVal{fmt.Sprintf("(select (%s.dom (select %s %s)) %s)", ms, env.heapT(env.cur, heap), v.T, k.T), "Bool", nil}
+	case "allocated":
+		v := env.tr(x.Args[0])
+		nr := env.cur.nextRef
+		if env.usedHeaps != nil {
+			// inside a spec function: the allocation frontier is an implicit parameter, like the heaps
+			found := false
+			for _, h := range *env.usedHeaps {
+				if h == "$nextRef" {
+					found = true
+				}
+			}
+			if !found {
+				*env.usedHeaps = append(*env.usedHeaps, "$nextRef")
+			}
+			nr = "h$$nextRef"
+		}
+		return SpecVal{fmt.Sprintf("(alive %s %s)", v.T, nr), "Bool", nil}
 	case "nextref":
 		return SpecVal{env.cur.nextRef, "Int", nil}
 	}
@@ -856,6 +873,23 @@ func (env *SpecEnv) call(x ECall) SpecVal {
 		args = append(args, v.T)
 	}
 	for _, h := range info.heaps {
+		if h == "$nextRef" {
+			if env.usedHeaps != nil {
+				found := false
+				for _, hh := range *env.usedHeaps {
+					if hh == "$nextRef" {
+						found = true
+					}
+				}
+				if !found {
+					*env.usedHeaps = append(*env.usedHeaps, "$nextRef")
+				}
+				args = append(args, "h$$nextRef")
+			} else {
+				args = append(args, env.cur.nextRef)
+			}
+			continue
+		}
 		args = append(args, env.heapT(env.cur, h))
 	}
 	if len(args) == 0 {
@@ -953,6 +987,10 @@ func (g *VCGen) specFnInfo(sf *SpecFn) *specFnInfo {
 		}
 		inf.heaps = heaps
 		for _, h := range heaps {
+			if h == "$nextRef" {
+				params = append(params, "(h$$nextRef Int)")
+				continue
+			}
 			params = append(params, fmt.Sprintf("(h$%s %s)", h, g.so.heaps[h]))
 		}
 		if sf.Rec {
